@@ -578,9 +578,34 @@ class BuildResult:
         self.pump_order = []
         self.max_parked = 0
         self.to_be_deleted_left = None
+        self.draining = None
+        self.end_report = None
 
     def tags(self, tag):
         return [d for t, d, _ in self.events if t == tag]
+
+
+def end_of_build_facts(workflow):
+    """What the end-of-build report is computed from, re-evaluated on the final database
+    (inside the caller's transaction, on the director's own connection with its temp tables)."""
+    import attrs as _attrs
+
+    from stepup.core.pending import _analyze_pending
+
+    facts = {}
+    summary, totals = _analyze_pending(workflow)
+    facts["pending_summary"] = _attrs.asdict(summary)
+    facts["attributed_totals"] = {int(k): int(v) for k, v in totals.items()}
+    violations = workflow.find_glob_violations()
+    facts["glob_errors"] = [(v.step_label, v.pattern, v.path) for v in violations if v.is_error]
+    facts["glob_warnings"] = [(v.step_label, v.pattern, v.path) for v in violations
+                              if not v.is_error]
+    facts["missing_targets"] = sorted(str(t) for t in workflow.targets
+                                      if not workflow.is_regular_output(t))
+    facts["missing_target_dirs"] = sorted(str(t) for t in workflow.target_dirs
+                                          if not workflow.has_regular_output_under(t))
+    facts["threshold"] = workflow.need_threshold.value
+    return facts
 
 
 TABLES = ["node", "dependency", "file", "step", "step_hash", "nglob", "dynamic_dep", "env_var",
@@ -715,6 +740,8 @@ async def run_build(config_kwargs=None, *, choices=(), default_settle=2, observe
                         result.tables = dump_tables(con)
                         result.graph = session.handler.workflow.format_str()
                         result.to_be_deleted_left = dict(session.handler.workflow.to_be_deleted)
+                        result.draining = bool(session.handler.scheduler.draining)
+                        result.end_report = end_of_build_facts(session.handler.workflow)
                 except Exception as exc:  # noqa: BLE001
                     result.serve_error = result.serve_error or (
                         type(exc).__name__, str(exc), traceback.format_exc())
